@@ -22,6 +22,7 @@ Decided (label, scope and stack-pointer discipline of the code generator; struct
         (every defined field is initialised), the converse of its per-field existence check.
  R7 K5  argument counts: every zip() of call arguments with declared parameters in lower.rs is preceded
         by a comparison of the two lengths, locally or at every call site (sibling agreement).
+ R8 K5  no type-checking comparison in the compiler compares a value with itself.
 Not decided: type mismatches, undefined variables and stack underflow for arbitrary accepted
 programs (needs the soundness of the type checker in lower.rs; value-level)."""
 from rules.core import emit, pat
@@ -353,6 +354,7 @@ def struct_literal_rule(F, rep):
               "a struct literal in a global `let` is not checked against its struct definition (performs %s, missing %s) although lower_struct_literal checks the same literals in "
               "expressions: `let g = S { a: \"text\" }` for `struct S { a int }` compiles and `g.a` is a string where an int is expected" % (sorted(got), sorted(want - got)), g.site())
     arity_rule(F, rep)
+    self_comparison_rule(F, rep)
 
 
 def arity_rule(F, rep):
@@ -386,3 +388,56 @@ def arity_rule(F, rep):
                       "%s pairs arguments with parameters by zip() without any comparison of their counts, here or at its call sites (its sibling lowerings all compare them): "
                       "a call with too few arguments is accepted and the callee pops an empty stack" % name, z.site())
     rep.floor("argument/parameter zips in lower.rs", n, 5)
+
+
+CMP_LIKE = {"matches", "eq", "ne", "fits_type", "cmp", "partial_cmp", "lt", "le", "gt", "ge", "is_subtype", "unify_pair", "unify_pair_as", "check_type"}
+
+
+def access_path(f, o, depth=12):
+    """canonical (root local, field path) of an operand, through single-definition copies, moves, borrows and
+    derefs; None for constants or values computed by calls"""
+    if o is None or o.place is None:
+        return None
+    local = o.place.local
+    proj = [tuple(p[:2]) for p in o.place.proj if p[0] in ("f", "v")]
+    for _ in range(depth):
+        nm = f.local_name(local)
+        if (nm and nm != "self") or (1 <= local <= f.nargs):
+            break
+        ds = f.defs().get(local, [])
+        if len(ds) != 1 or ds[0][0] != "stmt":
+            return None if not ds or ds[0][0] != "stmt" else (local, tuple(proj))
+        st = ds[0][1]
+        if st.place.proj:
+            return None
+        if st.rv_kind() == "use":
+            src = Operand(st.rv[1]).place
+        elif st.rv_kind() == "ref":
+            from rules.core.facts import Place
+            src = Place(st.rv[2])
+        else:
+            return None
+        if src is None:
+            return None
+        proj = [tuple(p[:2]) for p in src.proj if p[0] in ("f", "v")] + proj
+        local = src.local
+    return (local, tuple(proj))
+
+
+def self_comparison_rule(F, rep):
+    """R8: no type-checking comparison in the compiler compares a value with itself (x.matches(&x),
+    a == a, t.fits_type(&t)): such a test is constantly true and silently disables the check it stands for."""
+    n = 0
+    for f in F.fns:
+        if f.crate != "aranya_policy_compiler" or f.derived or f.exp:
+            continue
+        for c in f.calls:
+            if c.name in CMP_LIKE and len(c.args) == 2 and not c.exp:
+                n += 1
+                a, b = access_path(f, c.args[0]), access_path(f, c.args[1])
+                if a is not None and a == b and a[1]:
+                    rep.violation("self-comparison|%s|%s" % (f.path.replace("aranya_policy_compiler::", ""), c.name), "K5 contradiction",
+                                  "%s compares a value with itself (`x.%s(&x)`, both operands are the same field path %s of the same binding): the check is constantly satisfied" % (
+                                      f.path, c.name, ".".join(str(p[1]) for p in a[1])), c.site())
+    rep.floor("comparison calls examined for self-comparison", n, 40)
+    rep.ok("K5 contradiction", "no comparison call in the compiler has identical operands (%d examined)" % n)
